@@ -448,3 +448,65 @@ def replay_carry_over(pre_parse, bol, wsp, supp):
         if got != CARRY_WANT:
             return (f"one context: parse({first!r}); start_page; parse({CARRY_DOC!r})", True, f"the table / HTML document parses differently after the first call: {str(got)[:200]}")
     return ("parse histories", False, "")
+
+
+# ---------------------------------------------------------------- external links of every scheme of URL_STARTS
+from wikitextprocessor.common import URL_STARTS
+
+N_SCHEMES = len(URL_STARTS)
+EXT_CH = "a.-_~"
+EXT_WHERE = [("", ""), ("{|\n| c ", "\n|}"), ("* i ", "\n"), ("<span>", "</span>"), ("[[t|", " ]]")]
+
+
+def _pick3(x, n: int) -> int:
+    for v in range(n):
+        if x == v:
+            return v
+    raise AssertionError("outside the precondition")
+
+
+def _extlink_doc(scheme: int, label: bool, where: int, ci: int):
+    target = URL_STARTS[scheme] + "e.org/" + EXT_CH[ci] + "b"
+    pre, post = EXT_WHERE[where]
+    return pre + "[" + target + (" l m" if label else "") + "]" + post, [[target], ["l m"]] if label else [[target]]
+
+
+def _extlink_bad(scheme: int, label: bool, where: int, ci: int):
+    doc, want = _extlink_doc(scheme, label, where, ci)
+    w = Wtp(quiet=True, quiet_output=True)
+    w.start_page("T")
+    root = w.parse(doc)
+    found = []
+
+    def walk(n):
+        if isinstance(n, WikiNode):
+            if n.kind == K.URL:
+                found.append(n.largs)
+            for c in n.children:
+                walk(c)
+            for a in n.largs:
+                for c in a:
+                    walk(c)
+
+    walk(root)
+    return doc, found != [want], f"external link: URL nodes {found}, written arguments {want}"
+
+
+def extlink_step(scheme, label, where, ci) -> bool:
+    """[target label] with a target that starts with any entry of URL_STARTS (common.py: "Strings used to identify valid
+    external links") is one URL node with largs [[target], [label]] - at top level, in a table cell, a list item, an HTML
+    element and a link argument.  The solver picks the case; parse() itself runs untraced (regular expressions over
+    symbolic text do not terminate in CrossHair)."""
+    from crosshair.tracers import NoTracing, is_tracing
+
+    if is_tracing():
+        scheme, where, ci = _pick3(scheme, N_SCHEMES), _pick3(where, len(EXT_WHERE)), _pick3(ci, len(EXT_CH))
+        label = True if label else False
+        with NoTracing():
+            return not _extlink_bad(scheme, label, where, ci)[1]
+    return not _extlink_bad(scheme, label, where, ci)[1]
+
+
+def replay_extlink(scheme, label, where, ci):
+    doc, bad, msg = _extlink_bad(scheme, label, where, ci)
+    return ("parse(" + repr(doc) + ")", bad, msg)
